@@ -4,7 +4,7 @@ use crate::errors::{Result, SvgdxError};
 use crate::events::{InputEvent, InputList, OutputEvent, OutputList};
 use crate::position::{BoundingBox, Position};
 use crate::transform::{process_events, EventGen};
-use crate::types::ElRef;
+use crate::types::{fstr, ElRef};
 
 #[derive(Debug, Clone)]
 pub struct ReuseElement(pub SvgElement);
@@ -120,7 +120,15 @@ impl EventGen for ReuseElement {
             pos.update_size(&sz);
         }
         pos.update_shape(&instance_element.name);
-        if is_placed {
+        if is_placed && instance_element.name == "text" {
+            // (a text has no extent: its anchor is the position given)
+            if let Some(x) = pos.xmin.or(pos.cx).or(pos.xmax) {
+                instance_element.set_attr("x", &fstr(x + pos.dx.unwrap_or(0.)));
+            }
+            if let Some(y) = pos.ymin.or(pos.cy).or(pos.ymax) {
+                instance_element.set_attr("y", &fstr(y + pos.dy.unwrap_or(0.)));
+            }
+        } else if is_placed {
             pos.set_position_attrs(&mut instance_element);
         }
 
